@@ -34,12 +34,12 @@ pub fn c01_exhaustive_count(tier: &str) -> u64 {
 fn checked_retrievals(rng: &mut Rng, ki: usize, vi: usize, algo: &str, f: (&str, &str), tag: &str, len: u64) -> Vec<Value> {
     let addr = json!({"val":vi,"algo":algo});
     // tiny buffers only for values that stay cheap to stream (a 1-byte buffer over 1 MiB is a million reads)
-    let buf = if len > 70_000 { *rng.pick(&[1024u64, 8192, 65536]) } else { *rng.pick(&[1u64, 7, 1024, 8192, 65536]) };
+    let buf = pick_buf(rng, len);
     let mut v = vec![
         json!({"k":"api","op":"read","key":ki}),
         json!({"k":"api","op":"read","addr":addr}),
         json!({"k":"api","op":"reader","key":ki,"bufs":[buf]}),
-        json!({"k":"api","op":"reader","addr":addr,"bufs":[buf, if len > 70_000 { 4096 } else { 3 }]}),
+        json!({"k":"api","op":"reader","addr":addr,"bufs":[buf, if len > 4096 { 4096 } else { 3 }]}),
         json!({"k":"api","op":"copy","key":ki,"to":format!("$O/{tag}-ck")}),
         json!({"k":"api","op":"copy","addr":addr,"to":format!("$O/{tag}-ca")}),
         json!({"k":"api","op":"hard_link","key":ki,"to":format!("$O/{tag}-hk")}),
@@ -131,7 +131,7 @@ pub fn gen_c01(tier: &str, r: u64, ex: u64, rng: &mut Rng) -> Value {
         let mut ops = checked_retrievals(rng, 0, 0, algo, f, &format!("s{i}"), maxlen);
         // mid-stream damage: flip a byte of the file between two reads of a Reader
         if rng.chance(1, 3) && len > 16 {
-            let mut m = json!({"k":"api","op":"reader","key":1,"bufs":[if maxlen > 70_000 { 4096 } else { *rng.pick(&[1u64,7,64]) }],"mid_after":rng.range(1,2),"mid":{"act":"flip","content":c1,"byte":vlen(&vals,1).saturating_sub(1),"bit":1}});
+            let mut m = json!({"k":"api","op":"reader","key":1,"bufs":[if maxlen > 4096 { 4096 } else { *rng.pick(&[1u64,7,64]) }],"mid_after":rng.range(1,2),"mid":{"act":"flip","content":c1,"byte":vlen(&vals,1).saturating_sub(1),"bit":1}});
             set_flav(&mut m, f);
             // the interpreter cannot know whether the flipped byte had been read already: mark the content damaged first
             steps.push(json!({"k":"env","act":"noop_mark_damaged","content":c1}));
@@ -685,7 +685,7 @@ pub fn gen_c20(rng: &mut Rng) -> Value {
             5 => json!({"k":"api","op":"write","entry":*rng.pick(&["write","write_algo"]),"algo":*rng.pick(&ALGOS),"val":vi,"key":ki}),
             6 => json!({"k":"api","op":"write","entry":"write","val":vi}),
             7 => json!({"k":"api","op":"read","key":ki}),
-            8 => json!({"k":"api","op":"reader","key":ki,"bufs":[0, if big > 0 { 4096 } else { *rng.pick(&[1u64, 0, 4096]) }]}),
+            8 => json!({"k":"api","op":"reader","key":ki,"bufs":[0, if vals.iter().any(|v| v["len"].as_u64().unwrap_or(0) > 4096) { 4096 } else { *rng.pick(&[1u64, 0, 4096]) }]}),
             9 => json!({"k":"api","op":*rng.pick(&["metadata","find"]),"key":ki}),
             10 => json!({"k":"api","op":*rng.pick(&["list","ls"])}),
             11 => json!({"k":"api","op":*rng.pick(&["copy","copy_unchecked","hard_link","reflink","hard_link_unchecked","reflink_unchecked"]),"key":ki,"to":format!("$O/h{}", rng.below(3))}),
@@ -735,7 +735,7 @@ pub fn gen_c12(rng: &mut Rng) -> Value {
             }
             7 | 8 => json!({"k":"api","op":"read","key":ki}),
             9 => json!({"k":"api","op":"read","addr":{"val":vi,"algo":"sha256"}}),
-            10 => json!({"k":"api","op":"reader","key":ki,"bufs":[if big > 0 { 8192 } else { *rng.pick(&[1u64, 7, 8192]) }]}),
+            10 => json!({"k":"api","op":"reader","key":ki,"bufs":[pick_buf(rng, vals.iter().map(|v| v["len"].as_u64().unwrap_or(0)).max().unwrap_or(0))]}),
             11 => json!({"k":"api","op":"metadata","key":ki}),
             12 => json!({"k":"api","op":"exists","addr":{"val":vi,"algo":"sha256"}}),
             13 => json!({"k":"api","op":"copy","key":ki,"to":format!("$O/c{i}")}),
